@@ -76,14 +76,14 @@ def replay_once(h, path):
 
 
 def merge_stats(results):
-    m = {"evaluations": 0, "distinct_nontrivial": 0, "excluded_by_known_findings": 0, "labels": {}, "per_inst": {}, "per_inst_nontrivial": {}, "samples": [], "exhaustive": [], "notes": [], "digests": {}}
+    m = {"evaluations": 0, "distinct_nontrivial": 0, "excluded_not_compared": 0, "labels": {}, "per_inst": {}, "per_inst_nontrivial": {}, "samples": [], "exhaustive": [], "notes": [], "digests": {}}
     for r in results:
         s = r["stats"]
         if not s:
             continue
         m["evaluations"] += s["evaluations"]
         m["distinct_nontrivial"] += s["distinct_nontrivial"]
-        m["excluded_by_known_findings"] += s.get("excluded_by_known_findings", 0)
+        m["excluded_not_compared"] += s.get("excluded_not_compared", 0)
         for k in ("labels", "per_inst", "per_inst_nontrivial"):
             for a, b in s.get(k, {}).items():
                 m[k][a] = m[k].get(a, 0) + b
@@ -210,7 +210,7 @@ def check(pid, tier, seed, hs, level, rule, assumptions=(), extra_cov=None, min_
         "per_instantiation_nontrivial": m["per_inst_nontrivial"],
         "exhaustive_subspaces": m["exhaustive"],
         "exhaustive": False,
-        "excluded_by_known_findings": m["excluded_by_known_findings"],
+        "excluded_not_compared": m["excluded_not_compared"],
         "regression_cases_replayed": nreg,
         "notes": m["notes"],
         "harnesses": [{"name": h.name, "shards": h.shards, "flags": " ".join(h.flags), "compiler": h.compiler} for h in hs],
